@@ -1093,7 +1093,7 @@ func init() {
 
 func init() {
 	register(&Rule{
-		ID: "C03.R6", Props: []string{"C03", "C09", "C10", "C11"}, Min: 8,
+		ID: "C03.R6", Props: []string{"C03", "C09", "C10", "C11", "C04", "C16"}, Min: 8,
 		Doc: "the evaluator's output is made of fresh nodes only: every node list an evaluator function returns consists of nodes allocated or cloned during this evaluation and of what other evaluator calls returned — never a node of the template it was given. A template node that is handed through keeps its sibling links into the unevaluated template (the serialiser walks on into branches that were decided not to render) and is re-linked by its new parent (the cached template is modified while other renders read it)",
 		Run: func(p *Prog, c *Ctx) {
 			cone := p.evaluatorCone()
